@@ -5,7 +5,7 @@
   question octets, QDCOUNT, the EDNS payload size and the TSIG slot are as the scan left them.
 -/
 import QV.Proofs.Frame
-import QV.Model.Server
+import QV.Proofs.ScanRefine
 
 namespace QV.Server
 open QV QV.Writer
@@ -332,41 +332,44 @@ theorem framed_setTsigOrTruncate (hb : 4 ≤ b) (mode : TsigMode) (rr : TsigRr) 
 theorem rc_all_lt : RC "NOERROR" < 16 ∧ RC "FORMERR" < 16 ∧ RC "NOTAUTH" < 16 ∧ RC "NOTIMP" < 16 ∧
     RC "SERVFAIL" < 16 ∧ RC "REFUSED" < 16 := by decide
 
-theorem framed_processTsig (hb : 4 ≤ b) (cfg : Cfg) (now : Nat) (t : Tsig.ReadTsigRr) (mw : Bytes) (r' : Reader.Reader) :
-    Framed b (processTsig cfg now t mw r') := by
-  obtain ⟨c0, c1, c9, c4, c2, c5⟩ := rc_all_lt
-  have hbad : ∀ nowT, Framed b (do
-      setRcode (RC "NOTAUTH")
-      match WName.parse t.algorithm, preparedFromRead t nowT (XRC "BADKEY") with
-      | some (an, []), some prep => do
-        let _ ← setTsigOrTruncate (.unsigned an) prep
-        pure (none : Option Reader.Reader)
-      | _, _ => M.panic) := by
-    intro nowT
-    refine framed_bind (framed_setRcode b hb _ c9) fun _ => ?_
-    split
-    · exact framed_bind (framed_setTsigOrTruncate b hb _ _) fun _ => framed_pure b _
-    · exact framed_panic b
-  intro s hc hr
-  unfold processTsig
+theorem framed_tsigBadKey (hb : 4 ≤ b) (t : Tsig.ReadTsigRr) (nowT : Tsig.TimeSigned) :
+    Framed b (tsigBadKey t nowT) := by
+  unfold tsigBadKey
+  refine framed_bind (framed_setRcode b hb _ rc_all_lt.2.2.1) fun _ => ?_
   split
-  · exact Fr.refl b s hc
-  · rename_i nowT _
-    simp only
-    split
-    · exact hbad nowT s hc hr
-    · split
-      · exact hbad nowT s hc hr
-      · have hlt : ∀ res (alg : Tsig.Algorithm) (sec : List UInt8), (tsigOutcome res alg t sec).1 < 16 := by
-          intro res alg sec
-          unfold tsigOutcome
-          split <;> first | exact c0 | exact c9 | exact c1 | decide
-        split
-        · refine framed_bind (framed_setRcode b hb _ (hlt _ _ _)) (fun _ => ?_) s hc hr
-          refine framed_bind (framed_setTsigOrTruncate b hb _ _) fun added => ?_
-          split <;> exact framed_pure b _
-        · exact Fr.refl b s hc
+  · exact framed_bind (framed_setTsigOrTruncate b hb _ _) fun _ => framed_pure b _
+  · exact framed_panic b
 
+theorem tsigReply_rcode_lt (alg : Hmac.Alg) (mac sec : List UInt8) (res : Out Tsig.VerificationError Unit)
+    (rc e : Nat) (m : TsigMode) (h : tsigReply alg mac sec res = some (rc, e, m)) : rc < 16 := by
+  obtain ⟨c0, c1, c9, _⟩ := rc_all_lt
+  unfold tsigReply at h
+  split at h
+  all_goals (cases h; try (first | exact c0 | exact c9 | exact c1))
+
+theorem framed_tsigVerifyAndWrite (hb : 4 ≤ b) (hm : Tsig.Algorithm → Tsig.Octets → Tsig.Octets → Tsig.Octets)
+    (t : Tsig.ReadTsigRr) (mw : List UInt8) (alg : Hmac.Alg) (sec : List UInt8) (nowT : Tsig.TimeSigned)
+    (r' : Reader.Reader) : Framed b (tsigVerifyAndWrite hm t mw alg sec nowT r') := by
+  intro s hc hr
+  unfold tsigVerifyAndWrite
+  split
+  · rename_i rcode tsigErr mode hrep
+    split
+    · refine framed_bind (framed_setRcode b hb _ (tsigReply_rcode_lt _ _ _ _ _ _ _ hrep)) (fun _ => ?_) s hc hr
+      refine framed_bind (framed_setTsigOrTruncate b hb _ _) fun added => ?_
+      split <;> exact framed_pure b _
+    · exact Fr.refl b s hc
+  · exact Fr.refl b s hc
+
+theorem framed_tsigProcess (hb : 4 ≤ b) (hm : Tsig.Algorithm → Tsig.Octets → Tsig.Octets → Tsig.Octets)
+    (keys : List Key) (nowT : Tsig.TimeSigned) (t : Tsig.ReadTsigRr) (mw : List UInt8) (r' : Reader.Reader) :
+    Framed b (tsigProcess hm keys nowT t mw r') := by
+  unfold tsigProcess
+  split
+  · exact framed_tsigBadKey b hb t nowT
+  · split
+    · exact framed_tsigBadKey b hb t nowT
+    · exact framed_tsigVerifyAndWrite b hb hm t mw _ _ nowT r'
 
 theorem framed_formErr {α} (hb : 4 ≤ b) (a : α) : Framed b (do setRcode (RC "FORMERR"); pure a : M α) :=
   framed_bind (framed_setRcode b hb _ (by decide)) fun _ => framed_pure b a
@@ -383,7 +386,9 @@ theorem framed_handleTsig (hb : 4 ≤ b) (cfg : Cfg) (now : Nat) (p : Reader.Pee
         · exact framed_formErr b hb _ s hc hr
         · exact Fr.refl b s hc
         · exact Fr.refl b s hc
-        · exact framed_processTsig b hb cfg now _ _ _ s hc hr
+        · split
+          · exact Fr.refl b s hc
+          · exact framed_tsigProcess b hb _ _ _ _ _ _ s hc hr
     · exact framed_formErr b hb _ s hc hr
     · exact Fr.refl b s hc
   · exact Fr.refl b s hc
